@@ -82,6 +82,10 @@ def coerce(val, dt, guard=True, rt=None, record=True):
             return val
         lo, hi = _int_range(dt)
         if is_sym(val):
+            if rt is not None and getattr(rt, "wrap_narrow", False):
+                # one-step inductive queries: explicit machine wrap-around instead of a range obligation
+                span = hi - lo + 1
+                return ((val - lo) % span) + lo
             if record and rt is not None:
                 rt.obligations.append(("range", guard, z3.And(val >= lo, val <= hi), rt.where() + f":{dt}"))
             return val
